@@ -40,7 +40,7 @@ def used(eng, name):
 
 
 def _is_sarr(v):
-    return isinstance(v, SArr) and not hasattr(v, "__pyvc_getitem__")
+    return isinstance(v, SArr) and (not hasattr(v, "__pyvc_getitem__") or type(v).__name__ == "Series5")
 
 
 def _as_sarr(v):
@@ -54,6 +54,31 @@ def _as_sarr(v):
 
 def _rng(t, n):
     return z3.And(t >= 0, t < n)
+
+
+def _mat(eng, a):
+    """an array whose contents are a lambda term (a gather `ids[order]`, an arithmetic result) gets a NAME: a fresh array constant defined
+    cell by cell (definitional extension), so that the facts stated about it can carry triggers (a select on a lambda term is no pattern)"""
+    if a is None or not (z3.is_quantifier(a.arr) and a.arr.is_lambda()) or eng.spec_mode:
+        return a
+    key = ("named-array", a.arr.get_id())
+    c = eng.ghost.get(key)
+    if c is None:
+        c = eng.ghost[key] = z3.Const(fresh_name(a.name + "_v"), a.arr.sort())
+        i = z3.Int(fresh_name("mi"))
+        body = z3.simplify(z3.Select(a.arr, i))
+        pats, todo = [z3.Select(c, i)], [body]
+        while todo:  # a cell that reads other arrays AT i (a gather x[order[i]]) is also found from those reads (order[i])
+            t = todo.pop()
+            if z3.is_select(t) and t.arg(1).eq(i) and z3.is_const(t.arg(0)):
+                pats.append(t)
+            elif z3.is_app(t):
+                todo.extend(t.children())
+        try:
+            eng.assume(z3.ForAll([i], z3.Select(c, i) == body, patterns=pats))
+        except z3.Z3Exception:
+            eng.assume(z3.ForAll([i], z3.Select(c, i) == body, patterns=pats[:1]))
+    return SArr(c, a.n, a.kind, name=a.name, dtype=a.dtype)
 
 
 # ------------------------------------------------------------------ min / max
@@ -170,7 +195,7 @@ def sorting_permutation(eng, a, stable):
 
 
 def _np_argsort(eng, args, kwargs):
-    a = _as_sarr(args[0]) if args else None
+    a = _mat(eng, _as_sarr(args[0]) if args else None)
     if a is None:
         return _chain(np.argsort, "numpy.argsort")(eng, args, kwargs)
     if len(args) > 1 and args[1] not in (-1, 0) or kwargs.get("axis", -1) not in (-1, 0) or kwargs.get("order") is not None or len(args) > 2:
@@ -183,7 +208,7 @@ def _m_argsort(eng, recv, args, kwargs):
 
 
 def _np_sort(eng, args, kwargs):
-    a = _as_sarr(args[0]) if args else None
+    a = _mat(eng, _as_sarr(args[0]) if args else None)
     if a is None:
         return _chain(np.sort, "numpy.sort")(eng, args, kwargs)
     if len(args) > 1 or kwargs.get("axis", -1) not in (-1, 0) or kwargs.get("order") is not None:
@@ -205,7 +230,7 @@ def _np_searchsorted(eng, args, kwargs):
         if kw not in names or kw in b:
             raise Unsupported(f"np.searchsorted argument {kw}")
         b[kw] = val
-    a = _as_sarr(b.get("a"))
+    a = _mat(eng, _as_sarr(b.get("a")))
     if a is None or "v" not in b:
         return _chain(np.searchsorted, "numpy.searchsorted")(eng, args, kwargs)
     side, sorter, v = b.get("side", "left"), b.get("sorter"), b["v"]
@@ -216,7 +241,7 @@ def _np_searchsorted(eng, args, kwargs):
     n = a.nz()
     i, i2, j = z3.Int(fresh_name("si")), z3.Int(fresh_name("si2")), z3.Int(fresh_name("sj"))
     if sorter is not None:
-        so = _as_sarr(sorter)
+        so = _mat(eng, _as_sarr(sorter))
         if so is None or so.kind != "int":
             raise Unsupported("np.searchsorted sorter")
         from .npmodels import _len_eq
@@ -314,6 +339,131 @@ _MINE = {
     np.any: _np_reduce(np.any, "numpy.any", lambda e, a: _all_any(e, a, False)),
     np.argsort: _np_argsort, np.sort: _np_sort, np.searchsorted: _np_searchsorted,
 }
+
+
+def _late(name):
+    """models of pyvc/ext_C05_frame.py (whole-table frame operations, dtype-faithful casts), imported on first use"""
+    def model(eng, args, kwargs):
+        from . import ext_C05_frame
+
+        return getattr(ext_C05_frame, name)(eng, args, kwargs)
+
+    return model
+
+
+_MINE[np.take] = _late("np_take")
+
+
+# ------------------------------------------------------------------ lexsort / empty_like / scatter a[idx] = values / pd.Series(array)
+def _np_lexsort(eng, args, kwargs):
+    """np.lexsort(keys): the STABLE permutation that sorts by the last key, then the one before it, ...  One key: the canonical stable
+    permutation of that array (shared with argsort(kind='stable')); several keys: a permutation (ghost inverse) along which the key tuples
+    (last key first) are lexicographically non-decreasing, equal tuples in position order"""
+    if len(args) != 1 or {k for k, v in kwargs.items() if not (k == "axis" and v in (-1, 0))}:
+        raise Unsupported("np.lexsort options")
+    ks = args[0]
+    keys = list(ks) if isinstance(ks, (tuple, list)) else list(ks.items) if isinstance(ks, PList) and ks.items is not None else None
+    if not keys:
+        raise Unsupported("np.lexsort keys")
+    keys = [_mat(eng, _as_sarr(k)) for k in keys]
+    if any(k is None or k.kind not in ("int", "real", "bool") for k in keys):
+        return _chain(np.lexsort, "numpy.lexsort")(eng, args, kwargs)
+    from .npmodels import _len_eq
+
+    for k in keys[1:]:
+        _len_eq(eng, keys[0], k, "np.lexsort keys")
+    if len(keys) == 1:
+        return sorting_permutation(eng, keys[0], True)
+    used(eng, "lexsort-of-1d-keys: a permutation of the positions (ghost inverse); key tuples (last key first) lexicographically non-decreasing, ties in position order")
+    a = keys[0]
+    n = a.nz()
+    out = SArr.fresh("int", a.n, name="lexorder", dtype=np.dtype("int64"))
+    rank = z3.Function(fresh_name("rank"), I, I)
+    k, k2, p = z3.Int(fresh_name("sk")), z3.Int(fresh_name("sk2")), z3.Int(fresh_name("sp"))
+    o = lambda t: z3.Select(out.arr, t)
+    eng.assume(z3.ForAll([k], z3.Implies(_rng(k, n), z3.And(_rng(o(k), n), rank(o(k)) == k)), patterns=[o(k)]))
+    eng.assume(z3.ForAll([p], z3.Implies(_rng(p, n), z3.And(_rng(rank(p), n), o(rank(p)) == p)), patterns=[rank(p)]))
+    less = o(k) < o(k2)
+    for key in keys:  # the last key is the most significant one
+        kk = "int" if key.kind == "bool" else key.kind
+        x, y = to_z3(key.get(o(k)), kk), to_z3(key.get(o(k2)), kk)
+        less = z3.Or(x < y, z3.And(x == y, less))
+    eng.assume(z3.ForAll([k, k2], z3.Implies(z3.And(0 <= k, k < k2, k2 < n), less), patterns=[z3.MultiPattern(o(k), o(k2))]))
+    out.rank = rank
+    return out
+
+
+def _np_empty_like(eng, args, kwargs):
+    a = _as_sarr(args[0]) if args else None
+    if a is None or len(args) > 1 or {k for k in kwargs if k != "dtype"}:
+        return _chain(np.empty_like, "numpy.empty_like")(eng, args, kwargs)
+    from .npmodels import kind_of_dtype
+
+    dt = kwargs.get("dtype")
+    kind = kind_of_dtype(dt) if dt is not None else a.kind
+    used(eng, "np.empty_like(1-D array): a fresh array of the same length with ARBITRARY contents")
+    return SArr.fresh(kind, a.n, name="empty", dtype=dt if dt is not None else a.dtype)
+
+
+def _forall(vs, body, patterns):
+    """ForAll with triggers where z3 accepts them (a select on a lambda term is no pattern)"""
+    try:
+        return z3.ForAll(vs, body, patterns=patterns)
+    except z3.Z3Exception:
+        return z3.ForAll(vs, body)
+
+
+def scatter_store(eng, base, idx, val):
+    """a[idx] = values (idx an int index array, values an array of the same length): cell idx[j] receives values[j].  Positions must lie
+    in [0, len(a)) (safety obligation).  For pairwise distinct positions the result is determined on the written cells; cells no position
+    names keep their content (stated through a ghost witness per written cell); with repeated positions numpy leaves the winner
+    unspecified: nothing is known about the array then."""
+    from .models import check_frame
+    from .npmodels import _len_eq
+
+    check_frame(eng, base)
+    _len_eq(eng, idx, val, "a[index array] = values")
+    used(eng, "index-array store a[idx] = values: cell idx[j] receives values[j] (pairwise distinct positions; other cells keep their content; repeated positions: unspecified; pigeonhole: n distinct positions in [0, n) name every cell)")
+    m, n = idx.nz(), base.nz()
+    j, j2, i = z3.Int(fresh_name("sc_j")), z3.Int(fresh_name("sc_j2")), z3.Int(fresh_name("sc_i"))
+    A = lambda t: z3.Select(idx.arr, t)
+    if not eng.spec_mode:
+        eng.prove(eng.site("index-in-bounds"), z3.ForAll([j], z3.Implies(_rng(j, m), _rng(A(j), n))), "safety", "index array store")
+    old = base.arr
+    new = z3.Const(fresh_name(base.name + "_sc"), old.sort())
+    tag = fresh_name("sct")
+    hit = z3.Const(tag + "_hit", z3.ArraySort(I, z3.BoolSort()))
+    wit = z3.Function(tag + "_wit", I, I)
+    distinct = z3.ForAll([j, j2], z3.Implies(z3.And(_rng(j, m), _rng(j2, m), j != j2), A(j) != A(j2)))
+    vk = base.kind
+    eng.assume(z3.Implies(distinct, z3.And(
+        _forall([j], z3.Implies(_rng(j, m), z3.And(z3.Select(hit, A(j)), z3.Select(new, A(j)) == to_z3(val.get(j), vk))), [A(j)]),
+        z3.ForAll([i], z3.Implies(z3.Select(hit, i), z3.And(_rng(wit(i), m), A(wit(i)) == i))),
+        _forall([i], z3.Implies(z3.Not(z3.Select(hit, i)), z3.Select(new, i) == z3.Select(old, i)), [z3.Select(new, i)]))))
+    # pigeonhole (assumed induction fact, part of this model): pairwise distinct positions, as many as the array has cells, name every cell
+    eng.assume(z3.Implies(z3.And(distinct, m == n, z3.ForAll([j], z3.Implies(_rng(j, m), _rng(A(j), n)))),
+                          _forall([i], z3.Implies(_rng(i, n), z3.Select(hit, i)), [z3.Select(hit, i), z3.Select(new, i)])))
+    base.arr = new
+
+
+def _pd_series(eng, args, kwargs):
+    a = _as_sarr(args[0]) if args else None
+    if a is None or len(args) > 1 or {k for k in kwargs if k not in ("name", "dtype")} or kwargs.get("dtype") is not None:
+        raise Unsupported("pandas.Series(...) of these operands")
+    from . import ext_C05_frame
+
+    eng.assumptions.add("pandas-model(C05): pd.Series(1-D array) has the default RangeIndex and the array's values")
+    return ext_C05_frame.Series5.of(SArr(a.arr, a.n, a.kind, name=a.name, dtype=a.dtype), None)
+
+
+_MINE[np.lexsort] = _np_lexsort
+_MINE[np.empty_like] = _np_empty_like
+try:
+    import pandas as _pd
+
+    _MINE[_pd.Series] = _pd_series
+except ImportError:  # pragma: no cover
+    pass
 # functions for which a stock model (pyvc/npmodels.py), where one exists, takes precedence: this file only fills the gap
 _STOCK_FIRST = {np.all, np.any}
 _METHODS = {"min": _m_min, "max": _m_max, "argsort": _m_argsort, "searchsorted": _m_searchsorted}
@@ -340,6 +490,13 @@ class ModelsProxy:
             if stock is not None:
                 return stock
         return m if m is not None else models.lookup_model(fn)
+
+    def setitem(self, eng, base, idx, val):
+        from . import models
+
+        if _is_sarr(base) and not hasattr(base, "view_of") and isinstance(idx, SArr) and idx.kind == "int" and isinstance(val, SArr):
+            return scatter_store(eng, base, idx, val)
+        return models.setitem(eng, base, idx, val)
 
     def method_of(self, eng, v, name):
         from . import models
